@@ -239,6 +239,8 @@ std::string CostProgram::describe() const
         o << "(conditional writes) ";
     if (bar_r2 > 0)
         o << "hard-barrier(+inf) ";
+    if (out_scale != 1.0)
+        o << " out_scale=" << out_scale;
     if (seg_w)
         o << "*segweight";
     o << "]";
@@ -284,6 +286,9 @@ double CostProgram::timeCost(const std::vector<double> &T, Eigen::VectorXd &grad
     }
     if (pert == PERT_TIME_GRAD && pert_index < n)
         grad(pert_index) += pert_delta;
+    if (pert == PERT_TIME_OMIT)
+        for (int i = 0; i < n; ++i)
+            grad(i) = 0.0;
     return c;
 }
 long double CostProgram::timeValueLD(const std::vector<double> &T) const
@@ -345,6 +350,9 @@ double CostProgram::wpCost(const Eigen::MatrixXd &q, Eigen::MatrixXd &grad) cons
     }
     if (pert == PERT_WP_GRAD && pert_index < n && pert_coord < d)
         grad(pert_index, pert_coord) += pert_delta;
+    if (pert == PERT_WP_OMIT_ROW && pert_index < n)
+        for (int j = 0; j < d; ++j)
+            grad(pert_index, j) = 0.0;
     return c;
 }
 long double CostProgram::wpValueLD(const Eigen::MatrixXd &q) const
@@ -454,7 +462,7 @@ R valueT(const CostProgram &c, R tg, int seg, const R *p, const R *v, const R *a
         }
         val += (R)c.wn_w * b * b * b * d2;
     }
-    R sw = (R)1 + (R)c.seg_w * (R)(seg % 5);
+    R sw = ((R)1 + (R)c.seg_w * (R)(seg % 5)) * (R)c.out_scale;
     return val * sw;
 }
 } // namespace
@@ -483,7 +491,7 @@ double CostProgram::runCost(double t, double tg, int seg, const double *p, const
         rs.thread = sl;
         rec->perThread[sl].push_back(rs);
     }
-    const double sw = 1.0 + seg_w * (seg % 5);
+    const double sw = (1.0 + seg_w * (seg % 5)) * out_scale;
     double G[5][kMaxDim] = {};
     double Gt = 0;
     const double *x[5] = {p, v, a, j, s};
